@@ -147,8 +147,6 @@ fn near_extreme_square<const L: usize>() -> Uint<L> {
 }
 //@ name=c20_k8_sqrt_3_extreme prop=C20,C11 tier=thorough profile=k8 funcs="Uint::sqrt,Uint::wrapping_sqrt,Uint::checked_sqrt,SquareRoot::sqrt" bound="u8 words, Uint<3>: x in {t^2-1,t^2,t^2+1}, t = 2^11 + (0..3) or 2^12 - 1 - (0..3)" free_bits=5
 sqrt_forms!(c20_k8_sqrt_3_extreme, 3, near_extreme_square());
-//@ name=c20_k8_sqrt_vartime_3_extreme prop=C20,C11,C15 tier=thorough profile=k8 funcs="Uint::sqrt_vartime,Uint::wrapping_sqrt_vartime,Uint::checked_sqrt_vartime,SquareRoot::sqrt_vartime" bound="u8 words, Uint<3>: x in {t^2-1,t^2,t^2+1}, t = 2^11 + (0..3) or 2^12 - 1 - (0..3)" free_bits=5
-sqrt_vartime_forms!(c20_k8_sqrt_vartime_3_extreme, 3, near_extreme_square());
 //@ name=c20_k8_boxed_sqrt_3_extreme prop=C20,C11,C15 tier=thorough profile=k8 funcs="BoxedUint::sqrt,BoxedUint::checked_sqrt" bound="u8 words, BoxedUint 3 limbs: x in {t^2-1,t^2,t^2+1}, t = 2^11 + (0..3) or 2^12 - 1 - (0..3); equals Uint<3>::sqrt" free_bits=5
 boxed_sqrt!(c20_k8_boxed_sqrt_3_extreme, 3, near_extreme_square());
 
@@ -178,5 +176,3 @@ macro_rules! boxed_sqrt_vartime {
         }
     };
 }
-//@ name=c20_k8_boxed_sqrt_vartime_3_extreme prop=C20,C11,C15 tier=thorough profile=k8 funcs="BoxedUint::sqrt_vartime,BoxedUint::wrapping_sqrt_vartime,BoxedUint::checked_sqrt_vartime" bound="u8 words, BoxedUint 3 limbs: x in {t^2-1,t^2,t^2+1}, t = 2^11 + (0..3) or 2^12 - 1 - (0..3)" free_bits=5
-boxed_sqrt_vartime!(c20_k8_boxed_sqrt_vartime_3_extreme, 3, near_extreme_square());
